@@ -341,8 +341,16 @@ fn replace_patch_headers(patch_str: &str, from_path: &Path, to_path: &Path) -> S
         }
     };
 
+    // Only the two header lines in front of the first hunk are file names; a changed line
+    // such as "-- x" is printed as "--- x" inside a hunk and must be left alone.
+    let mut in_header = true;
     for line in lines {
-        if line.starts_with("--- ") {
+        if line.starts_with("@@") {
+            in_header = false;
+        }
+        if !in_header {
+            result.push_str(line);
+        } else if line.starts_with("--- ") {
             // Replace "--- original" with actual from path (relative)
             // Preserve the original line ending
             write!(result, "--- {}", from_str).unwrap();
